@@ -699,6 +699,17 @@ def judge(ck, face, box, st):
         info["size"] = "big" if amount > 1e-4 else ("small" if amount > 2e-8 else "tiny")
         ck.fail(clause, jc, info, detail="box=%r oracle=%r amount=%.3e model=%r" % (box, {k: orc[k] for k in ("lat_min", "lat_max", "lon_lo", "lon_width", "north", "south")}, amount, mfaith))
         st.add("fail", clause, info.get("branch"), info.get("cause", "unattributed"), info["size"])
+    mp = face.get("_mpoles")
+    if mp is not None and prim is not None and "error" not in prim:
+        general = (not orc["ref_point_on_edge"] and "corner" not in (orc["north"], orc["south"])
+                   and not any(v[1] == 0 and v[0] >= 0 for v in face["corners"]))
+        same = (mp[0] != "E" and mp[1] != "E" and bool(mp[0]) == prim["has_north"] and bool(mp[1]) == prim["has_south"])
+        st.add("pole_flags_model_vs_impl", "general_position" if general else "special_position", "same" if same else "DIFFERENT")
+        if general and not same:
+            ck.corr_failures.append({"case": jc, "what": "pole flags: model of _pole_point_inside_polygon vs implementation",
+                                     "model": mp[:2], "impl": [prim["has_north"], prim["has_south"]]})
+        if not face.get("reversed") and (bool(mp[2]), bool(mp[3])) != (orc["north"] == "inside", orc["south"] == "inside"):
+            ck.corr_failures.append({"case": jc, "what": "Coq c13_pole_in_face differs from the Python oracle", "model": mp[2:]})
     if agrees is not None:
         st.add("corr_compared")
         if False:
@@ -780,6 +791,17 @@ def evaluate(ck, faces, st, model_ok):
             oracle_poles = (orc["north"] in ("inside", "corner"), orc["south"] in ("inside", "corner"))
             lines += [model_case(f, prim), model_case(f, prim, oracle_poles=oracle_poles)]
             owners.append(f)
+        # pole flags of the model of _pole_point_inside_polygon (on the integer corners) for a share of the faces
+        pf = [f for f in owners if f.get("source", "topology") == "topology" and "start" not in f]
+        cap = 100 if ck.tier == "quick" else 700          # the exact-integer model needs ~0.5 s per face
+        if len(pf) > cap:
+            directed = [f for f in pf if f["family"] in ("edge_through_ref", "ref_point_at_vertex", "pole_inside_near_corner")][:cap // 5]
+            rest = [f for f in pf if f not in directed]
+            step = max(1, len(rest) // (cap - len(directed)))
+            pf = directed + rest[::step][:cap - len(directed)]
+        pres = ck.run_model("poles", [sx([list(v) for v in f["corners"]]) for f in pf]) if pf else []
+        for f, r in zip(pf, pres):
+            f["_mpoles"] = r
         res = ck.run_model("bounds", lines) if lines else []
         for k, f in enumerate(owners):
             f["_mfaith"] = box_to_rad(res[2 * k])
